@@ -5,6 +5,8 @@ import (
 	"flag"
 	"fmt"
 	"net/netip"
+	"os"
+	"path/filepath"
 	"strings"
 	"testing"
 	"time"
@@ -386,8 +388,44 @@ func genTunnels(t *rapid.T, hosts []Host) (Op, bool) {
 	return op, true
 }
 
+// names no certificate can be issued for: IDNs as raw UTF-8 instead of xn--
+var oddNames = []string{"b\u00fccher.example", "m\u00fcnchen.test", "\u65e5\u672c\u8a9e.example", "caf\u00e9", "xn--ok.\u00e9x.example"}
+
+// genOdd draws a request for a name outside the stated spellings (as SNI, or
+// as CONNECT authority without SNI). What matters is what comes after it.
+func genOdd(t *rapid.T, hosts []Host) Op {
+	op := Op{Kind: rapid.SampledFrom([]string{"get", "hs"}).Draw(t, "odd_via"), Host: rapid.IntRange(0, len(hosts)-1).Draw(t, "host")}
+	switch rapid.SampledFrom([]string{"sni", "sni", "authority", "authority-bytes", "tls-sni"}).Draw(t, "odd_kind") {
+	case "sni":
+		op.Sni = rapid.SampledFrom(oddNames).Draw(t, "odd_name")
+	case "tls-sni":
+		op.API, op.Sni = "tls", rapid.SampledFrom(oddNames).Draw(t, "odd_name")
+	case "authority":
+		op.Host = oddUTF8
+	case "authority-bytes":
+		op.Host = oddBytes
+	}
+	return op
+}
+
+// genSweep draws the long-history op: mostly a few dozen names, sometimes
+// more than the 160 a 160-bit quantity can be halved.
+func genSweep(t *rapid.T, hosts []Host) Op {
+	op := Op{Kind: "sweep", Host: rapid.IntRange(0, len(hosts)-1).Draw(t, "host"), Tag: rapid.IntRange(0, 2).Draw(t, "sweep_tag")}
+	if rapid.IntRange(0, 3).Draw(t, "sweep_long") == 0 {
+		op.Count = rapid.IntRange(160, 300).Draw(t, "sweep_count")
+	} else {
+		op.Count = rapid.IntRange(2, 40).Draw(t, "sweep_count")
+	}
+	return op
+}
+
 func genOp(t *rapid.T, hosts []Host) Op {
-	switch k := rapid.SampledFrom([]string{"get", "get", "get", "get", "get", "hs", "hs", "hs", "noname", "conc"}).Draw(t, "kind"); k {
+	switch k := rapid.SampledFrom([]string{"get", "get", "get", "get", "get", "get", "hs", "hs", "hs", "hs", "noname", "conc", "odd", "odd", "sweep"}).Draw(t, "kind"); k {
+	case "odd":
+		return genOdd(t, hosts)
+	case "sweep":
+		return genSweep(t, hosts)
 	case "noname":
 		return genNoName(t)
 	case "conc":
@@ -402,8 +440,8 @@ func genOp(t *rapid.T, hosts []Host) Op {
 var oracleText = "oracle: chain verifies under the CA for the named host (SNI, else the CONNECT authority without port/brackets) at an instant of the request, organization as configured, not valid for any other host of the case, key possession (real handshake / key match); no name => refusal"
 
 var propMachine = &kit.Prop[Case]{
-	ID: "C06", Name: "machine",
-	Rule:       "rapid-drawn histories of 1..12 operations (direct GetCertificate, real handshake TLS1.2/1.3, concurrent burst, no-name request) over one mitm.Config with a drawn organization and a pool of 1..3 hosts in 1..3 spellings each (LDH names 1..4 labels, mixed case, IPv4, IPv6 bare / bracketed with port, siblings); " + oracleText + "; non-trivial = IP literal, host:port form, mixed case, cache hit, or concurrency >= 2",
+	ID: "C06", Name: "machine", Journal: true,
+	Rule:       "rapid-drawn histories of 1..12 operations (direct GetCertificate, real handshake TLS1.2/1.3, concurrent burst, no-name request, request for a name no certificate can be issued for - raw UTF-8 IDN as SNI or authority -, sweep of 2..300 distinct names) over one mitm.Config with a drawn organization and a pool of 1..3 hosts in 1..3 spellings each (LDH names 1..4 labels, mixed case, IPv4, IPv6 bare / bracketed with port, siblings); " + oracleText + "; non-trivial = IP literal, host:port form, mixed case, cache hit, or concurrency >= 2",
 	Run:        budgeted("machine", 8*time.Second, 45*time.Second),
 	NonTrivial: nonTrivial, Classes: classes,
 	Gates: map[string]float64{"nontrivial": 0.7, "ip-literal": 0.2, "host-port": 0.3, "mixed-case": 0.3, "cache-hit": 0.3, "handshake": 0.4, "sni": 0.4, "no-name": 0.08, "ipv6-bare": 0.03, "ipv6-bracket-port": 0.03, "sni-differs-from-fallback": 0.15},
@@ -418,7 +456,7 @@ var propMachine = &kit.Prop[Case]{
 }
 
 var propExpiry = &kit.Prop[Case]{
-	ID: "C06", Name: "expiry",
+	ID: "C06", Name: "expiry", Journal: true,
 	Rule:       "histories over a mitm.Config with SetValidity(2s): 1..4 requests, a sleep past the NotAfter of everything issued, then the same request again (the cached entry is now invalid; in 2 of 3 cases served by a tls.Config that was built before the sleep) and 0..3 more requests, a concurrent burst, or 1..3 CONNECT tunnels through a real proxy that stay idle past the validity before the ClientHello; thorough: sometimes a second crossing; " + oracleText + "; non-trivial = a request for a host whose cached certificate has expired",
 	Run:        budgeted("expiry", 6*time.Second, 20*time.Second),
 	NonTrivial: func(c Case) bool { return analyse(c).crossing },
@@ -464,6 +502,10 @@ var propExpiry = &kit.Prop[Case]{
 			}
 			post := rapid.IntRange(0, 3).Draw(t, "post")
 			for i := 0; i < post; i++ {
+				if rapid.IntRange(0, 5).Draw(t, "post_odd") == 0 {
+					c.Ops = append(c.Ops, genOdd(t, c.Hosts))
+					continue
+				}
 				c.Ops = append(c.Ops, genRequest(t, c.Hosts, rapid.SampledFrom([]string{"get", "get", "hs"}).Draw(t, "kind")))
 			}
 		}
@@ -472,7 +514,7 @@ var propExpiry = &kit.Prop[Case]{
 }
 
 var propConcurrent = &kit.Prop[Case]{
-	ID: "C06", Name: "concurrent",
+	ID: "C06", Name: "concurrent", Journal: true,
 	Rule:       "0..3 warm-up requests, then 1..3 bursts of 2..12 (thorough 16) goroutines over 1..4 hosts of the pool, each goroutine doing 1..4 direct requests plus 0..40 (RSA authority) / 0..250 (P-256 authority) rounds over a shared sequence of never-seen names (forcing issuance while others ask), or one real handshake, released by a barrier, judged after the burst; " + oracleText + " - for the name each requester asked for; non-trivial = at least 2 goroutines",
 	Run:        budgeted("concurrent", 8*time.Second, 45*time.Second),
 	NonTrivial: func(c Case) bool { return analyse(c).conc },
@@ -482,6 +524,10 @@ var propConcurrent = &kit.Prop[Case]{
 		c := Case{Org: genOrg(t), CA: rapid.SampledFrom([]string{"", "ecdsa", "ecdsa"}).Draw(t, "ca"), Hosts: genHosts(t)}
 		warm := rapid.IntRange(0, 3).Draw(t, "warm")
 		for i := 0; i < warm; i++ {
+			if rapid.IntRange(0, 4).Draw(t, "warm_odd") == 0 {
+				c.Ops = append(c.Ops, genOdd(t, c.Hosts))
+				continue
+			}
 			c.Ops = append(c.Ops, genRequest(t, c.Hosts, "get"))
 		}
 		bursts := rapid.IntRange(1, 3).Draw(t, "bursts")
@@ -495,7 +541,7 @@ var propConcurrent = &kit.Prop[Case]{
 var propMatrix = &kit.Prop[Case]{
 	ID: "C06", Name: "matrix",
 	Rule:       "fixed matrix: every listed spelling class (lower/mixed-case names, 63-byte label, 253-byte name, punycode, IPv4, IPv6 loopback/compressed/upper-case/expanded/IPv4-mapped, each bare and with port) x {direct, cache hit, handshake TLS1.3, handshake TLS1.2, SNI same / SNI different / SNI through Config.TLS()}, plus the no-name requests; three rows repeated under a P-256 authority; " + oracleText,
-	Run:        func(c Case) kit.Verdict { return run("matrix", c) },
+	Run:        journaled("matrix", func(c Case) kit.Verdict { return run("matrix", c) }),
 	NonTrivial: nonTrivial, Classes: classes,
 }
 
@@ -557,7 +603,7 @@ func matrixCases() []Case {
 var propTiming = &kit.Prop[Case]{
 	ID: "C06", Name: "timing",
 	Rule:       "fixed histories about WHEN the leaf is chosen: (a) SetValidity(2s), tls.Configs for five spellings and Config.TLS() built first, one request to fill the cache, a sleep past the validity, then direct requests and real handshakes served by the configs built before the sleep (no SNI, SNI equal to the authority, other SNI); (b) a real martian.Proxy doing MITM with SetValidity(1s): six CONNECT tunnels in parallel, five of them idle for 1.3 s between the 200 and the ClientHello (no SNI, SNI equal to the authority, IPv4, bracketed IPv6, other SNI), one without pause; thorough repeats both under the P-256 authority; " + oracleText + "; non-trivial = a certificate served after such a gap",
-	Run:        func(c Case) kit.Verdict { return run("timing", c) },
+	Run:        journaled("timing", func(c Case) kit.Verdict { return run("timing", c) }),
 	NonTrivial: func(c Case) bool { ci := analyse(c); return ci.heldCrossing || ci.idleTunnel },
 	Classes:    classes,
 }
@@ -606,6 +652,87 @@ func timingCases() []Case {
 		out = append(out, b)
 	}
 	return out
+}
+
+var propLongrun = &kit.Prop[Case]{
+	ID: "C06", Name: "longrun",
+	Rule:       "fixed histories about what a configuration does AFTER something else: (a) a request that cannot be served - raw UTF-8 IDN as SNI (direct, handshake, through Config.TLS()), as CONNECT authority, as CONNECT through a real proxy, an authority with a non-UTF-8 byte - followed by ordinary requests for new and for cached hosts (direct, handshake, tunnel), all of which must return within the liveness bound and verify; (b) 260 distinct names through one configuration, each judged, all again in another order, earlier hosts again, then 40 more; (c, thorough only) SetValidity(2s): 120 names, a sleep past the validity, the same 120 names re-issued; " + oracleText + "; non-trivial = an ordinary request after an unservable one, or a history of 160+ names",
+	Run:        journaled("longrun", func(c Case) kit.Verdict { return run("longrun", c) }),
+	NonTrivial: func(c Case) bool { ci := analyse(c); return ci.afterOdd || ci.long },
+	Classes:    classes,
+}
+
+func longrunCases() []Case {
+	hosts := func() []Host {
+		return []Host{dnsHost("after.example.com", 443), dnsHost("Cached.Example.org", 8443), ipHost("10.9.8.7", 443), ipHost("2001:db8::99", 443)}
+	}
+	ordinary := []Op{
+		{Kind: "get", Host: 0}, {Kind: "get", Host: 1}, {Kind: "hs", Host: 2}, {Kind: "hs", Host: 3, TLS12: true},
+		{Kind: "hs", Host: 0, Sni: "fresh-after.example.net", Std: true}, {Kind: "get", API: "tls", Sni: "via-tls.example.net"},
+	}
+	var out []Case
+	for _, odd := range [][]Op{
+		{{Kind: "get", Host: 0, Sni: oddNames[0]}},
+		{{Kind: "hs", Host: 0, Sni: oddNames[0]}},
+		{{Kind: "hs", API: "tls", Sni: oddNames[2], TLS12: true}},
+		{{Kind: "get", Host: oddUTF8}},
+		{{Kind: "hs", Host: oddUTF8}},
+		{{Kind: "get", Host: oddBytes}},
+	} {
+		c := Case{Org: "Longrun Org", Hosts: hosts()}
+		c.Ops = append(c.Ops, Op{Kind: "get", Host: 1}) // one host is in the cache before
+		c.Ops = append(c.Ops, odd...)
+		c.Ops = append(c.Ops, ordinary...)
+		out = append(out, c)
+	}
+	// through the proxy: CONNECT for the raw UTF-8 authority, then ordinary tunnels
+	tun := Case{Org: "Longrun Org", Hosts: append(hosts(), Host{Spelling: fallbackSpelling(nil, oddUTF8), Name: oddNames[0], Class: "odd", Port: true, Canon: oddNames[0]})}
+	tun.Ops = []Op{
+		{Kind: "tunnels", Workers: []Worker{{Host: 1}}},
+		{Kind: "tunnels", Workers: []Worker{{Host: 4}}},
+		{Kind: "tunnels", Workers: []Worker{{Host: 0, Sni: oddNames[1]}}},
+		{Kind: "tunnels", Workers: []Worker{{Host: 0}, {Host: 1, Sni: "Cached.Example.org"}, {Host: 2}, {Host: 3}}},
+		{Kind: "get", Host: 0},
+	}
+	out = append(out, tun)
+
+	long := Case{Org: "Longrun Org", Hosts: hosts()}
+	long.Ops = []Op{
+		{Kind: "get", Host: 0}, {Kind: "get", Host: 1},
+		{Kind: "sweep", Host: 0, Count: 260, Tag: 1},
+		{Kind: "get", Host: 0}, {Kind: "hs", Host: 1}, {Kind: "get", Host: 0, Sni: sweepName(1, 17)},
+		{Kind: "get", Host: 0, Sni: oddNames[0]},
+		{Kind: "sweep", Host: 2, Count: 40, Tag: 2},
+		{Kind: "hs", Host: 3},
+	}
+	out = append(out, long)
+
+	again := Case{Org: "Longrun Org", CA: "ecdsa", Short: true, Hosts: hosts()}
+	again.Ops = []Op{
+		{Kind: "sweep", Host: 0, Count: 120, Tag: 3},
+		{Kind: "expire"},
+		{Kind: "sweep", Host: 0, Count: 120, Tag: 3},
+		{Kind: "hs", Host: 1},
+	}
+	if kit.Thorough() {
+		out = append(out, again)
+	}
+	return out
+}
+
+// journaled writes the case where the driver looks for it when a process dies
+// (the rapid checks get this from kit's Journal; Enumerate has no journal):
+// a panic on a goroutine of the proxy cannot be recovered by the harness.
+func journaled(check string, f func(Case) kit.Verdict) func(Case) kit.Verdict {
+	return func(c Case) kit.Verdict {
+		path := filepath.Join(kit.OutDir(), fmt.Sprintf("current-%d.json", kit.Shard()))
+		raw, _ := json.Marshal(c)
+		doc, _ := json.Marshal(map[string]interface{}{"property": "C06", "check": check, "sig": "C06/crash/" + check, "msg": "process died while running this case", "case": json.RawMessage(raw)})
+		os.WriteFile(path, doc, 0o644)
+		v := f(c)
+		os.Remove(path)
+		return v
+	}
 }
 
 // budgeted wraps run for the rapid-driven checks and bounds what happens after
@@ -684,6 +811,19 @@ func TestTiming(t *testing.T) {
 	})
 }
 
+func TestLongrun(t *testing.T) {
+	if kit.Race() {
+		t.Skip("fixed sequential histories; the rapid checks run the same ops under the race detector")
+	}
+	propLongrun.Enumerate(t, func(yield func(Case) bool) {
+		for _, c := range longrunCases() {
+			if !yield(c) {
+				return
+			}
+		}
+	})
+}
+
 func TestMachine(t *testing.T) {
 	n := kit.N(60, 200)
 	if kit.Race() {
@@ -709,5 +849,5 @@ func TestExpiry(t *testing.T) {
 }
 
 func TestReplay(t *testing.T) {
-	kit.Replay(t, propMachine, propExpiry, propConcurrent, propMatrix, propTiming)
+	kit.Replay(t, propMachine, propExpiry, propConcurrent, propMatrix, propTiming, propLongrun)
 }
